@@ -13,7 +13,11 @@ from harness.common import Run, frac
 META = dict(
     technique="Coq theorems (induction over the list of individuals / parameters / columns) on an executable list-codec model of "
               "IndividualParameters written line by line from the source; the model is run inside Coq (vm_compute, exact rationals and "
-              "strings) on the same containers, tables, tensors and paths as the implementation on every run and compared exactly",
+              "strings) on the same containers, tables, tensors and paths as the implementation on every run and compared exactly; "
+              "source-level tie: the decisions of the model (ordered checks of add_individual_parameters with their exception classes, accepted "
+              "scalar types and kind of type test, column-label and label-cut rules, what each conversion iterates, attributes filled by the "
+              "readers) are regenerated from the python ast into coq/gen/GenC16.v, run by an interpreter over named steps and proved equal to "
+              "the hand-written model; the C16 theorems are restated over the regenerated tables",
     level_text="Unbounded theorems on the model: additions with a non-string / duplicate ID, a non-dict, an unsupported scalar or "
                "first-element type, an empty list or a shape dict different from the first entry's are rejected and leave the container "
                "unchanged, well-formed additions are appended; json round trip exact for every shape; tensor round trip keeps IDs, order, "
@@ -21,8 +25,9 @@ META = dict(
                "shapes. The full statement is refuted in the faithful model (scalar parameter -> IndexError, '_' in a name -> merged "
                "parameters, list tail unchecked, numpy scalar -> json TypeError, NA-like ID through csv, empty container) and each witness "
                "is replayed on the code as a known finding.",
-    level_note="Trusted: Coq kernel; the hand-written model (tied by exact vm_compute comparison on generated inputs, not regenerated from "
-               "source); the harness encoders (python object -> Coq literal, float -> exact rational); pandas/json/torch as libraries "
+    level_note="Trusted: Coq kernel; the hand-written model (tied by exact vm_compute comparison on generated inputs; its decisions are also "
+               "regenerated from the source and proved to be the model's (T1), the loop bodies inside the translator's templates and the python "
+               "meaning of one step - bool derives from int, x in list, d[k] = v - are written by hand); the harness encoders (python object -> Coq literal, float -> exact rational); pandas/json/torch as libraries "
                "(csv quoting, dtype unification, float text round trip are observed, not modelled; values are dyadic so float32 and the csv "
                "text are exact); rounding to float32 is an abstract function in the theorems and the identity on the tested values.",
     design_ref="DESIGN.md section 4 C16",
@@ -35,7 +40,28 @@ OBLIGATIONS = [
     "C16_table_roundtrip_partial", "C16_scalar_refuted", "C16_underscore_refuted",
     "C16_csv_roundtrip_partial", "C16_csv_na_id_refuted",
     "C16_empty_refuted", "C16_save_load_extension",
+    # source level (T1): the same statements over the tables regenerated from individual_parameters.py (coq/gen/GenC16.v)
+    "C16_src_add_is_model", "C16_src_add_all_is_model", "C16_src_add_rejects_partial", "C16_src_bool_rejected", "C16_src_add_accepts",
+    "C16_src_conversions_are_model", "C16_src_torch_roundtrip", "C16_src_table_roundtrip_partial", "C16_src_csv_roundtrip_partial",
+    "C16_src_scalar_refuted", "C16_src_underscore_refuted", "C16_src_json_roundtrip", "C16_src_load_fills",
 ]
+
+
+def translate(run: Run) -> bool:
+    """T1: regenerate coq/gen/GenC16.v (order of the checks of add_individual_parameters, accepted types and kind of type test, label and
+    cut rules, iteration sources, attributes filled by the readers) from $VERIF_REPO; fail closed."""
+    from harness.translate import c16_container
+    try:
+        ok = c16_container.translate(run)
+    except Exception as e:  # noqa - an AST shape the translator has never met must not stop the search
+        import traceback
+        run.broken("translate:GenC16", f"translator crashed: {type(e).__name__}: {e}\n{traceback.format_exc()[-800:]}", kind="broken-translation")
+        ok = False
+    if not ok:
+        # never leave the tables of an earlier run behind: the proofs must not be checked against a stale translation
+        run.gen("GenC16", "(* the translation of this run FAILED (harness/translate/c16_container.py): no table *)\n")
+    return ok
+
 
 HDR = ("From Coq Require Import List String Ascii Bool Arith QArith.\n"
        "From Leaspy Require Import Io.IndivParams Io.IndivParamsTie.\n"
@@ -1011,6 +1037,7 @@ def check(run: Run):
 
 
 def main(run: Run):
+    translate(run)
     run.prove("C16", OBLIGATIONS)
     from harness.common import make
     ok, out = make(["theories/Io/IndivParamsTie.vo"])      # the comparison functions run by the generated case files
@@ -1022,7 +1049,9 @@ def main(run: Run):
         "identifiers and names are printable ASCII (plus TAB); the python type of a number is compared after json only (pandas and torch unify types)",
         "parameter names 'ID' and '' and colliding column labels (x of length >= 2 next to x_0) are outside the model (Unmodelled) and not generated",
     ]
-    run.trusted += ["hand-written model coq/theories/Io/IndivParams.v (tied by exact vm_compute comparison on every run, not regenerated)",
+    run.trusted += ["hand-written model coq/theories/Io/IndivParams.v (tied by exact vm_compute comparison on every run; its decisions - order of the "
+                    "checks, accepted types, exception classes, naming / cut rules, iteration sources, attributes filled by readers - are regenerated "
+                    "from the source into coq/gen/GenC16.v and proved to be the model's)",
                     "harness encoders python object -> Coq literal (harness/props/c16.py), float -> exact rational (float.as_integer_ratio)",
                     "pandas (DataFrame construction, iterrows, to_csv/read_csv quoting and NA handling), json, torch.tensor/tolist, os.path.splitext"]
     run.explanation = ("Theorems (Coq, for every container / name / shape / value) on an executable model written line by line from "
